@@ -258,6 +258,11 @@ def rule_R3(ck):
                 m = is_advance(n, n.test.args[0].id)
                 if m:
                     A = m[0]
+        if A is None and isinstance(n, ast.AugAssign) and isinstance(n.op, ast.Add) and isinstance(n.target, ast.Name):
+            for c in {x.id for x in ast.walk(n.value) if isinstance(x, ast.Name)}:
+                m = is_advance(n, c)
+                if m:
+                    A = m[0]
     if A is None:
         raise Unknown("compile_block: address accumulator not found")
     loop = [n for n in walk_local(fn) if isinstance(n, ast.For)]
@@ -305,6 +310,61 @@ def rule_R3(ck):
     ck.instance("ip-resolve", {"'.' resolves to": repr(ps[0].value)}, fn="types::InstructionPointer.resolve")
     if len(ps) != 1 or ps[0].value != DOT:
         ck.violation("types::InstructionPointer.resolve", f"'.' evaluates to {ps[0].value!r}, not to the statement's address", construct="InstructionPointer.resolve")
+
+
+def rule_R3b(ck):
+    """compile_block, behaviourally: statement k is compiled with '.' = start + lengths of the chunks before it, a label gets
+    that same address, and the block's code is the concatenation - for plain and for deferred chunks"""
+    repo = ck.repo
+    where = "compiler::Compiler.compile_block"
+    for deferred in (False, True):
+        I = eager_interp(repo)
+        I.summaries = {"reports::emit_report": I.summaries["reports::emit_report"]}
+        seen = []
+        L = [sym.var(f"len{i}", "int") for i in range(3)]
+
+        def compile_insn(I_, fn, a, k):
+            i = len([x for x in seen if x[0] == "insn"])
+            seen.append(("insn", a[2]["emit_address"]))
+            if deferred:
+                SD = I_.module_get("deferred", "SizedDeferred")
+                return I_.instantiate(SD, [I_.builtin_types["bytes"], L[i], PyFn(lambda I2, aa, kk: sym.var(f"chunk{i}", "bytes"))], {})
+            return sym.var(f"chunk{i}", "bytes")
+        I.summaries["compiler::Compiler.compile_insn"] = compile_insn
+        I.summaries["compiler::Compiler.compile_label"] = lambda I_, fn, a, k: seen.append(("label", a[2], a[3]["emit_address"])) or None
+
+        def thunk():
+            del seen[:]
+            sh = Shapes(I)
+            comp = I.instantiate(I.module_get("compiler", "Compiler"), [], {})
+            T = I.module_get("types", "Instruction")
+            items = [sh.mk(T, None, None, sh.symbol("nop"), []), sh.mk(T, None, None, sh.symbol("nop"), []), sh.mk(I.module_get("types", "Label"), None, None, "here", False),
+                     sh.mk(T, None, None, sh.symbol("nop"), [])]
+            block = sh.mk(I.module_get("types", "CodeBlock"), None, None, items)
+            START = sym.var("START", "int")
+            data = I.call_method(comp, "compile_block", [{"context": "file", "link_base": {}}, block, START])
+            wait = I.module_get("deferred", "wait")
+            res = [(x[0],) + tuple(I.call(wait, [v], {}) for v in x[1:]) for x in seen]
+            return I.call(wait, [data], {}), res
+        ps = I.explore(thunk)
+        gen = [p for p in ps if all(v for k, v in p.decisions)] or ps
+        p = gen[0]
+        ck.instance(("block-addresses", deferred), {"deferred chunks": deferred, "addresses": repr(p.value[1]) if p.kind == "return" else repr(p.value)}, fn=where)
+        if p.kind != "return":
+            ck.violation(where, f"compile_block on [insn, insn, label, insn] does not complete: {p.value!r}", construct="compile_block paths")
+            continue
+        data, res = p.value
+        START = sym.var("START", "int")
+        ln = (lambda i: L[i]) if deferred else (lambda i: sym.op("len", sym.var(f"chunk{i}", "bytes")))
+        a0, a1, a2 = START, sym.add(START, ln(0)), sym.add(sym.add(START, ln(0)), ln(1))
+        want = [("insn", a0), ("insn", a1), ("label", a2, a2), ("insn", a2)]
+        if res != want:
+            bad = next((g, w) for g, w in zip(res + [None] * 4, want) if g != w)
+            ck.violation(where, f"in a block [insn, insn, label, insn] the {'label' if bad[1][0] == 'label' else 'statement'} is given address {bad[0]!r}, its bytes land at {bad[1]!r} (start + lengths of the chunks before it)",
+                         construct="compile_block running address", expected=repr(bad[1]), found=repr(bad[0]))
+        wantd = sym.cat(sym.cat(sym.var("chunk0", "bytes"), sym.var("chunk1", "bytes")), sym.var("chunk2", "bytes"))
+        if data != wantd:
+            ck.violation(where, f"the block's code is {data!r}, expected {wantd!r}", construct="compile_block concatenation")
 
 
 def rule_R4(ck):
@@ -502,6 +562,7 @@ def run(ck):
     ck.run_rule("C02.R1", "announced size == produced length for every sized producer (G8)", 40, rule_R1)
     ck.run_rule("C02.R2", "bytes accumulator / address accumulator pairing", 5, rule_R2)
     ck.run_rule("C02.R3", "'.' and label values are the running address before the statement", 5, rule_R3)
+    ck.run_rule("C02.R3b", "compile_block: statement and label addresses, concatenation (abstract execution)", 2, rule_R3b)
     ck.run_rule("C02.R4", "length() siblings agree with the values they describe", 4, rule_R4)
     ck.run_rule("G1", "deferred thunks capture by value", 20, thunks.rule_G1)
     ck.run_rule("C02.R6", "address continuation across included and linked files", 4, rule_R6)
